@@ -1160,7 +1160,7 @@ func judgeRead(fail func(sig, stage, detail string), sigPrefix, stage string, en
 }
 
 func streamPlanCases(r *ev.Run) []streamCase {
-	n := r.Pick(160, 5000)
+	n := r.Pick(160, 1800)
 	out := make([]streamCase, 0, n)
 	for i := 0; i < n; i++ {
 		out = append(out, streamCase{Part: "stream", Idx: i, Seed: r.Seed*3_000_017 + int64(i)*10_007})
